@@ -140,3 +140,33 @@ func H_C21_swapIdDecoding() {
 	p, perr := ParseSwapIdFromString(str)
 	zzverif.Assert((perr == nil) == wantOK && (perr != nil || p.String() == str), "C21.parse_swap_id_is_exactly_32_bytes_of_hex")
 }
+
+// H_C21_swapIdJsonForm: the JSON form of a swap id is a JSON string of 64 hex characters and nothing else:
+// (*SwapId).UnmarshalJSON accepts the quoted id (also when characters are written as \u escapes, which a JSON
+// string may do) and rejects a number made of 64 digits, an unquoted word, an object, an array, a string with
+// the id and more, and null; a rejected value leaves the id untouched.
+// Bounds: the concrete payloads listed below.
+func H_C21_swapIdJsonForm() {
+	const hex64 = "0123456789abcdef0123456789abcdef0123456789abcdef0123456789abcdef"
+	payloads := []string{
+		`"` + hex64 + `"`,
+		`"\u0030123456789abcdef0123456789abcdef0123456789abcdef0123456789abcdef"`, // the first character escaped
+		`1111111111111111111111111111111111111111111111111111111111111111`,
+		hex64,
+		`{"id":"` + hex64 + `"}`,
+		`["` + hex64 + `"]`,
+		`"` + hex64 + `00"`,
+		`null`,
+		`""` + hex64 + `""`,
+	}
+	k := zzverif.Choice("payload", len(payloads))
+	var id SwapId
+	before := id
+	err := id.UnmarshalJSON([]byte(payloads[k]))
+	zzverif.Assert((err == nil) == (k < 2), "C21.swap_id_json_form_is_a_string_of_64_hex_characters")
+	if err != nil {
+		zzverif.Assert(id == before, "C21.rejected_json_swap_id_leaves_id_untouched")
+	} else {
+		zzverif.Assert(id.String() == hex64, "C21.json_swap_id_value")
+	}
+}
